@@ -162,11 +162,11 @@ def read_prints(r, trace=None):
                     e = json.loads(ln); cfgs[e["x"]] = ln.strip()
         with open(os.environ["C09_CAL_OUT"], "a") as g:
             for p in r.prints:
-                if p.startswith('<<"OBS"'):
-                    x = int(p.split(",")[1])
+                if p.startswith('"OBS <<'):
+                    x = int(p[7:].split(",")[0])
                     g.write(p + " " + cfgs.get(x, "") + "\n")
     for p in r.prints:
-        m = re.match(r'<<"OBS", (-?\d+), (-?\d+), (-?\d+), (-?\d+), (-?\d+), (-?\d+), (-?\d+), (-?\d+), (-?\d+), (-?\d+), (-?\d+), (-?\d+)>>', p)
+        m = re.match(r'"OBS <<(-?\d+), (-?\d+), (-?\d+), (-?\d+), (-?\d+), (-?\d+), (-?\d+), (-?\d+), (-?\d+), (-?\d+), (-?\d+), (-?\d+)>>"', p)
         if m:
             x, nf, sf, sp, o1, n1, o2, n2, o4, n4, o2b, o2c = [int(v) for v in m.groups()]
             OBS["max_after_1s_cdB"] = max(OBS["max_after_1s_cdB"], o2b); OBS["max_after_2s_cdB"] = max(OBS["max_after_2s_cdB"], o2c)
